@@ -213,3 +213,15 @@ Theorem C03_units_carry_no_delete :
   forall n m, In (UUpd m) (units n) -> n_del m = [].
 Proof. exact units_carry_no_delete. Qed.
 Print Assumptions C03_units_carry_no_delete.
+
+(** FULL STATEMENT (with [good_op (OUpdT _ tgt n)] weakened to allow a prefix
+    without a target) is false: a target-less write through the exported Target
+    handle is stored in the handle's target but announced without one (known
+    finding KF-C03-5) *)
+Theorem C03_feed_replays_refuted_handle :
+  exists t, assoc "t" (c_targets (crun (new_cache wit_cfg ["t"]) wit_handle_ops)) = Some t /\
+    lookup (t_tree t) ["b"] <> None /\
+    rfind (replay (cfeed_hist (new_cache wit_cfg ["t"]) wit_handle_ops)) "t" ["b"] = None /\
+    rfind (replay (cfeed_hist (new_cache wit_cfg ["t"]) wit_handle_ops)) "" ["b"] <> None.
+Proof. exact feed_replays_refuted_handle. Qed.
+Print Assumptions C03_feed_replays_refuted_handle.
